@@ -615,6 +615,122 @@ def gallina_eval(src, rep_params):
 ''' % (root, root, '\n  '.join(clauses))
 
 
+# ------------------------------------------------------------------------------------------------ the loop of fp (src/bdd.rs)
+
+def skip_attr(p):
+    """#[cfg(..)] and the statement or block it guards (the verification hooks are compiled out of the shipped code)"""
+    p.eat('#'); p.eat('[')
+    depth = 1
+    while depth:
+        tok = p.eat(); depth += tok == '['; depth -= tok == ']'
+    if p.peek() == '{':
+        depth = 0
+        while True:
+            tok = p.eat(); depth += tok == '{'; depth -= tok == '}'
+            if depth == 0:
+                return
+    depth = 0
+    while True:
+        tok = p.eat()
+        depth += tok in ('(', '{', '['); depth -= tok in (')', '}', ']')
+        if tok == ';' and depth == 0:
+            return
+
+
+def fp_value(p, fun):
+    tok = p.peek()
+    if tok == 'Rc':
+        p.eat(); p.eat('::'); p.eat('clone'); p.eat('('); p.opt('&'); e = fp_value(p, fun); p.eat(')')
+        return e
+    if tok == '&':
+        p.eat(); return fp_value(p, fun)
+    x = p.ident()
+    if p.peek() == '(':
+        if x != fun:
+            raise Shape('call of %s inside fp' % x)
+        p.eat('('); a = fp_value(p, fun); p.opt(','); p.eat(')')
+        return '(%s %s)' % (x, a)
+    while p.opt('.'):
+        if p.eat() != 'clone':
+            raise Shape('method inside fp')
+        p.eat('('); p.eat(')')
+    return x
+
+
+def gallina_fp(src):
+    from .srcfun import fn_body
+    params, body = fn_body(src, 'fp')
+    if len(params) != 2:
+        raise Shape('fp takes %s' % params)
+    a, t = params
+    p = P(lex(body))
+    p.eat('{')
+    state = None
+    while p.peek() != 'loop':
+        if p.peek() == '#':
+            skip_attr(p); continue
+        p.eat('let'); p.eat('mut'); name = p.ident()
+        if state is not None:
+            raise Shape('a second mutable variable in fp')
+        p.eat('='); init = fp_value(p, t); p.eat(';')
+        state = name
+    if state is None or state in params:
+        raise Shape('no loop variable in fp')
+    p.eat('loop'); p.eat('{')
+    stmts = []
+    while p.peek() != '}':
+        if p.peek() == '#':
+            skip_attr(p); continue
+        if p.peek() == 'let':
+            p.eat('let'); x = p.ident()
+            if x in (a, t, state):
+                raise Shape('shadowing inside fp')
+            p.eat('='); stmts.append(('let', x, fp_value(p, t))); p.eat(';')
+        elif p.peek() == 'if':
+            p.eat('if'); l = fp_value(p, t); op = p.eat(); r = fp_value(p, t)
+            if op not in ('==', '!='):
+                raise Shape('loop condition %s' % op)
+            c = '(bdd_eqb %s %s)' % (l, r)
+            if op == '!=':
+                c = '(negb %s)' % c
+            p.eat('{'); p.eat('break'); p.opt(';'); p.eat('}')
+            stmts.append(('break', c, None))
+        else:
+            x = p.ident()
+            if x != state:
+                raise Shape('assignment to %s' % x)
+            p.eat('='); stmts.append(('let', x, fp_value(p, t))); p.eat(';')
+    p.eat('}')
+    result = fp_value(p, t)
+    p.eat('}')
+    e = '(src_fp_loop k %s %s)' % (state, t)
+    for kind, x, v in reversed(stmts):
+        e = '(let %s := %s in %s)' % (x, v, e) if kind == 'let' else '(if %s then Some %s else %s)' % (x, result, e)
+    return """Fixpoint src_fp_loop (fuel : nat) (%s : bdd) (%s : bdd -> bdd) {struct fuel} : option bdd :=
+  match fuel with
+  | 0 => None
+  | S k => %s
+  end.
+Definition src_fp (fuel : nat) (%s : bdd) (%s : bdd -> bdd) : option bdd := let %s := %s in src_fp_loop fuel %s %s.
+""" % (state, t, e, a, t, state, init, state, t)
+
+
+FP_PROOFS = r"""
+Lemma src_fp_ok : forall n a t, src_fp n a t = fp_f n a t.
+Proof.
+  unfold src_fp. cbv zeta. induction n as [|k IH]; intros a t; cbn [src_fp_loop fp_f]; [reflexivity|]. cbv zeta.
+  repeat match goal with |- context [bdd_eqb ?x ?y] => destruct (bdd_eqb_spec x y) end; cbn [negb];
+    try congruence; try (exfalso; congruence); apply IH.
+Qed.
+Print Assumptions src_fp_ok.
+Lemma src_fp_opt : forall n a t, fp_opt n a (fun b => Some (t b)) = src_fp n a t.
+Proof.
+  intros n a t. rewrite src_fp_ok. revert a. induction n as [|k IH]; intros a; cbn [fp_opt fp_f]; [reflexivity|].
+  cbv zeta. destruct (bdd_eqb (t a) a); [reflexivity | apply IH].
+Qed.
+Print Assumptions src_fp_opt.
+"""
+
 PROOFS = r'''
 Lemma map_ext_Forall {A B} (f g : A -> B) l : Forall (fun x => f x = g x) l -> map f l = map g l.
 Proof. induction 1 as [|x l Hx Hl IH]; cbn [map]; [reflexivity | rewrite Hx, IH; reflexivity]. Qed.
@@ -672,21 +788,25 @@ Print Assumptions src_eval_ok.
 '''
 
 
-def gallina(src):
+def gallina(src, bdd_src=None):
     rep_params, rep = gallina_replace(src)
     ev = gallina_eval(src, rep_params)
-    text = ('(* generated by lib/vlib/srceval.py from /repo/src/parser.rs on every run; do not edit *)\n'
+    text = ('(* generated by lib/vlib/srceval.py from /repo/src/parser.rs and /repo/src/bdd.rs on every run; do not edit *)\n'
             'From Coq Require Import List Arith Bool PeanoNat ZArith NArith Lia.\nImport ListNotations.\n'
-            'From Rsbdd Require Import Core.Bdd Core.Ops Lang.Ast Lang.AstFacts Lang.Eval.\n' + rep + ev + PROOFS)
-    return text, ['src_replace_var_ok', 'src_eval_ok']
+            'From Rsbdd Require Import Core.Bdd Core.Ops Core.OpsFacts Lang.Ast Lang.AstFacts Lang.Eval.\n' + rep + ev + PROOFS)
+    names = ['src_replace_var_ok', 'src_eval_ok']
+    if bdd_src is not None:
+        text += gallina_fp(bdd_src) + FP_PROOFS
+        names += ['src_fp_ok', 'src_fp_opt']
+    return text, names
 
 
 def run(ctx):
     parser_rs = os.path.join(ctx.repo, 'src', 'parser.rs')
-    info = {'source': 'src/parser.rs (replace_var, eval_recursive)'}
+    info = {'source': 'src/parser.rs (replace_var, eval_recursive), src/bdd.rs (fp)'}
     status, detail, names = 'proved', '', []
     try:
-        text, names = gallina(open(parser_rs, encoding='utf-8').read())
+        text, names = gallina(open(parser_rs, encoding='utf-8').read(), open(os.path.join(ctx.repo, 'src', 'bdd.rs'), encoding='utf-8').read())
         info.update(obligations=len(names))
         gdir = os.path.join(ctx.build, 'gen')
         os.makedirs(gdir, exist_ok=True)
@@ -694,7 +814,7 @@ def run(ctx):
         with open(gen, 'w') as f:
             f.write(text)
         coq = os.path.join(ctx.root, 'coq')
-        rc0, out0 = build.coq_make(ctx, ['theories/Lang/Eval.vo', 'theories/Lang/AstFacts.vo'])
+        rc0, out0 = build.coq_make(ctx, ['theories/Lang/Eval.vo', 'theories/Lang/AstFacts.vo', 'theories/Core/OpsFacts.vo'])
         if rc0 != 0:
             raise build.BuildError('Lang/Eval.vo does not build:\n' + out0[-1500:])
         rc, out = build.sh(['timeout', '600', 'coqc', '-Q', os.path.join(coq, 'theories'), 'Rsbdd', '-o',
